@@ -201,6 +201,12 @@ def admit (r : Req) (sit : Situation) : Option (List (String × Situation)) :=
                 -- buffered part of the response was written to the client
                 let tail : List Ev := [.backEof, .backHup, .frontFlush, .timeoutFront true]
                 let alts := [one (h ++ tail) bs, one (h ++ [.frontFlush] ++ tail) bs]
+                -- a body of several buffers: part written, the rest still pending when the
+                -- connection ends (what is pending may then be dropped)
+                let alts := if r.big then
+                    alts ++ [(outcomeToken (run cfgH1 Stream.init (h ++ [.frontFlush, .backData] ++ tail))
+                                { r with cut := "partly-dropped" } bs, closed)]
+                  else alts
                 -- a reset may discard what the kernel had not delivered yet
                 some (if r.endA == "reset" then alts ++ early else alts)
     | _ => none
